@@ -697,6 +697,33 @@ impl Check for FeePipeline {
                             rec.class("asset_swapped");
                         } else if untouched > 0 {
                             rec.class("asset_left_in_collector");
+                            // Leaving an asset is only legitimate when the pipeline had no swap to
+                            // try: at most MINIMUM_AGGREGABLE_BALANCE (1000), not an asset of a
+                            // registered pool or vault, no registered route, or a route whose
+                            // simulation fails. Otherwise a swap was issued, and since a failed
+                            // step must undo the whole NewEpoch, a successful NewEpoch cannot leave
+                            // the asset behind. (None of these conditions changes inside NewEpoch:
+                            // registrations and routes are untouched and the constant-product
+                            // simulation succeeds for any positive reserves.)
+                            let listed = (0..3).any(|i| registered[i] && h.pair_assets[i].contains(&k)) || h.vault_assets.contains(&k);
+                            if untouched > 1000 && listed {
+                                let route: Result<Vec<router::SwapOperation>, String> = h.w.query(
+                                    &h.router,
+                                    &router::QueryMsg::SwapRoute { offer_asset_info: h.assets[k].clone(), ask_asset_info: h.assets[0].clone() },
+                                );
+                                if let Ok(ops) = route {
+                                    let sim: Result<router::SimulateSwapOperationsResponse, String> = h.w.query(
+                                        &h.router,
+                                        &router::QueryMsg::SimulateSwapOperations { offer_amount: Uint128::new(after), operations: ops },
+                                    );
+                                    rec.class("left_asset_had_a_route");
+                                    ensure!(
+                                        sim.is_err(),
+                                        "step {step}: NewEpoch succeeded and left {after} of asset {k} in the collector although it is above the aggregation threshold, listed by a registered pool or vault, routed, and the route's simulation succeeds ({:?}): the swap step must have been attempted and failed, and a failed step must leave every balance unchanged",
+                                        sim.as_ref().ok().map(|r| r.amount)
+                                    );
+                                }
+                            }
                         }
                     }
                     // (3) router keeps nothing
